@@ -197,8 +197,12 @@ def run(tier, rep):
         surv.sort(reverse=True)
         for t in surv[:30]:
             print('SURVEY ratio %.3g err %.3g est %.3g floor %.3g k=%d %s' % t)
-    states, trans, per = vlib.merge_tlc([ctl, live, lem, tres])
-    cov = dict(states=states, transitions=trans, traces_validated_against_impl=len(traces), coefficient_checks=nval,
+    sres, sstats = [], {}
+    if tier != 'quick':
+        import suite_traces
+        sres, sstats = suite_traces.check('taylor', rep)     # the repository's own tests, hooks on, against Trace_Taylor
+    states, trans, per = vlib.merge_tlc([ctl, live, lem, tres] + sres)
+    cov = dict(**sstats, states=states, transitions=trans, traces_validated_against_impl=len(traces), coefficient_checks=nval,
                samples=[dict(case=owners[0], trace=traces[0])], evaluations=len(traces) + nval,
                distinct_nontrivial=len({nm for nm in owners if 'default' not in nm}),
                rule='11 function families x 6 expansion points of the unit square x (default configuration with n <= 20 + seeded (n, r, step_ratio, num_extrap)); non-trivial = non-default configuration',
